@@ -118,6 +118,11 @@ def check_case(case):
     if fe == "qcconfig":
         return check_qcconfig(case, tab, cfgd, items, nt, wk)
 
+    if case.get("pre") is not None:
+        # an earlier run of the same front end class and configuration, in the same process, on ANOTHER table of the
+        # same size (other time axis): nothing of it may survive into the judged run
+        pre_tab = S.table(case["n"], case["z"], case["ll"], case["pre"].get("shuffled", False), False, case["pre"].get("duptime", False))
+        alpha.call(S.run_frontend, fe, pre_tab, S.make_config(contexts, case.get("style", "str")))
     S.PROBE_LOG.clear()
     res = alpha.call(S.run_frontend, fe, tab, cfgd)
     probes = list(S.PROBE_LOG)
@@ -303,6 +308,7 @@ def tasks(tier):
     ts = [("reuse", 4, fe) for fe in ("pandas:range", "numpy:dict", "xarray:coord", "netcdf")]
     for fe in S.FRONTENDS:
         ts.append(("big", 40 if tier == "quick" else 150, fe))
+        ts.append(("big", 1500 if tier == "quick" else 2600, fe))
     for fe in ("pandas:names", "xarray:names", "netcdf:names"):
         ts.append(("one", 4, fe))
     for fe in ("xarray:file", "netcdf:file"):
@@ -412,7 +418,13 @@ def run_task(task, acc):
             yield dict(n=n, z=need["z"], ll=need["ll"], fe=fe, contexts=ctxs, style=style, testset=ts_name)
             if kind == "big":
                 yield dict(n=n, z=need["z"], ll=need["ll"], fe=fe, contexts=ctxs, style=style, testset=ts_name, shuffled=True)
+                if fe != "qcconfig":
+                    yield dict(n=n, z=need["z"], ll=need["ll"], fe=fe, contexts=ctxs, style=style, testset=ts_name, shuffled=True, pre=dict())
+                    yield dict(n=n, z=need["z"], ll=need["ll"], fe=fe, contexts=ctxs, style=style, testset=ts_name, pre=dict(shuffled=True))
                 continue
+            if n >= 3 and ts_name == "probe" and fe != "qcconfig":
+                yield dict(n=n, z=need["z"], ll=need["ll"], fe=fe, contexts=ctxs, style=style, testset=ts_name, shuffled=True, pre=dict())
+                yield dict(n=n, z=need["z"], ll=need["ll"], fe=fe, contexts=ctxs, style=style, testset=ts_name, pre=dict(shuffled=True))
             if n >= 2 and ts_name == "probe" and fe != "xarray:coord":
                 # a row whose time is missing (NaT) satisfies no window bound
                 yield dict(n=n, z=need["z"], ll=need["ll"], fe=fe, contexts=ctxs, style=style, testset=ts_name, nat=True)
